@@ -16,7 +16,7 @@ LEVEL = "exploration"
 SHARDS = {"quick": 4, "thorough": 16}
 THOROUGH_DEPTH = 20      # thorough tier = this many times the base thorough budget (VERIF_DEPTH overrides)
 FORMS = ["fresh", "view", "aliased", "float32-free"]
-REGIONS = {"form:fresh": 300, "form:view": 300, "form:aliased": 300, "form:objects": 300, "form:readonly": 300}
+REGIONS = {"form:fresh": 300, "form:view": 300, "form:aliased": 300, "form:objects": 300, "form:readonly": 300, "form:nan-marked": 300}
 THOROUGH_QUOTA_MULT = 4
 
 
@@ -306,6 +306,45 @@ def specs():
                          ("TRIAD", lambda: F.TRIAD(), None), ("TRIAD[quaternion]", lambda: F.TRIAD(), lambda X, x, y: X.estimate(x, y, "quaternion")),
                          ("AQUA", lambda: F.AQUA(), None)):
         same(nm + ".estimate", mk_, est or (lambda X, x, y: X.estimate(x, y)), lambda a: list(a.am()), array_class=False)
+    _objs = {}
+
+    def sensors_obj():
+        if "s" not in _objs:
+            _objs["s"] = __import__("ahrs").utils.sensors.Sensors(num_samples=20)
+        return _objs["s"]
+
+    def wmm_obj():
+        if "w" not in _objs:
+            _objs["w"] = wmm_mod.WMM()
+        return _objs["w"]
+    # ---- public worker methods a caller may use on their own (the workloads above only reach them through a constructor or an update step)
+    from ahrs.filters import aqua as aqua_mod
+    from ahrs.utils import wmm as wmm_mod
+    add("AngularRate.integrate_angular_positions", lambda g: F.AngularRate().integrate_angular_positions(g, 0.01), lambda a: [a.v(8, 0.5)])
+    add("AngularRate.integrate_angular_positions[quaternion]", lambda g: F.AngularRate().integrate_angular_positions(g, 0.01, "quaternion"), lambda a: [a.v(8, 0.5)])
+    add("AngularRate.integrate_angular_positions[rotmat]", lambda g: F.AngularRate().integrate_angular_positions(g, 0.01, "rotmat"), lambda a: [a.v(8, 0.5)])
+    add("QuaternionArray.to_array", lambda Q_: ahrs.QuaternionArray(Q_).to_array(), lambda a: [a.q(5)])
+    add("AQUA.Omega", lambda x: F.AQUA().Omega(x), lambda a: [a.v()])
+    add("aqua.adaptive_gain", lambda x: aqua_mod.adaptive_gain(x), lambda a: [a.v() + np.array([0.0, 0.0, 9.8])])
+    add("Complementary.am_estimation", lambda x, y: F.Complementary().am_estimation(x, y), lambda a: list(a.am(5)))
+    add("Complementary.am_estimation[acc only]", lambda x: F.Complementary().am_estimation(x), lambda a: [a.v(5)])
+    add("EKF.Omega", lambda x: F.EKF().Omega(x), lambda a: [a.v()])
+    add("EKF.dfdq", lambda x: F.EKF().dfdq(x, 0.01), lambda a: [a.v(s=0.5)])
+    add("EKF.h", lambda q_: F.EKF().h(q_), lambda a: [a.qu()])
+    add("EKF.dhdq", lambda q_: F.EKF().dhdq(q_), lambda a: [a.qu()])
+    add("EKF.dhdq[refactored]", lambda q_: F.EKF().dhdq(q_, mode="refactored"), lambda a: [a.qu()])
+    add("FKF.Omega4", lambda x: F.FKF().Omega4(x), lambda a: [a.v()])
+    add("FKF.measurement_quaternion_acc_mag", lambda q_, x, y: F.FKF().measurement_quaternion_acc_mag(q_, x, y), lambda a: [a.qu()] + list(a.am()))
+    add("FKF.kalman_update", lambda q1, q2, P_, Phi, Se, Sv: F.FKF().kalman_update(q1, q2, P_, Phi, Se, Sv),
+        lambda a: [a.qu(), a.qu(), np.identity(4) * 0.1, np.identity(4) + 0.01 * a.R()[:1, :1] * np.ones((4, 4)), np.identity(4) * 1e-3, np.identity(4) * 1e-2])
+    add("OLEQ.WW", lambda x, y: F.OLEQ().WW(x, y), lambda a: [a.v(), a.v()])
+    add("ROLEQ.WW", lambda x, y: F.ROLEQ().WW(x, y), lambda a: [a.v(), a.v()])
+    add("ROLEQ.oleq", lambda x, y, q_: F.ROLEQ().oleq(x, y, q_), lambda a: list(a.am()) + [a.qu()])
+    add("UKF.Omega", lambda x: F.UKF().Omega(x), lambda a: [a.v()])
+    add("UKF.set_weights", lambda x: F.UKF().set_weights(), lambda a: [a.v()])
+    add("Sensors.angular_velocities", lambda P_: sensors_obj().angular_velocities(P_, 100.0), lambda a: [a.ang(12)])
+    add("wmm.geodetic2spherical", lambda c: wmm_mod.geodetic2spherical(float(c[0]) * 9.0, float(c[1]) * 18.0, abs(float(c[2]))), lambda a: [a.v()])
+    add("WMM.get_properties", lambda x: np.array([float(v) for v in wmm_obj().get_properties(wmm_obj().wmm_filename).values() if isinstance(v, (int, float))]), lambda a: [a.v()])
     # ---- the same call written with keywords (parameter names from the signature): the same arguments, so the same result
     import inspect
 
@@ -378,7 +417,7 @@ def generate(rng, tier, shard, nshards):
     k = 0
     for rep in range(reps):
         for idx in range(nspec):
-            for form in ("fresh", "view", "aliased", "objects", "readonly"):
+            for form in ("fresh", "view", "aliased", "objects", "readonly", "nan-marked"):
                 k += 1
                 if k % nshards != shard:
                     continue
@@ -449,6 +488,20 @@ def make_forms(args, form, rng):
             any_ = any_ or o_ is not None
             out.append(o_ if o_ is not None else (a.copy() if isinstance(a, np.ndarray) else a))
         return out if any_ else None
+    if form == "nan-marked":   # a recording with missing samples marked as NaN (whole rows or single entries): whatever the function makes of them, the markers are the caller's
+        r2_ = np.random.Generator(np.random.PCG64(int(sum(float(np.nansum(np.abs(a))) for a in args if isinstance(a, np.ndarray)) * 1e6) % (2 ** 63)))
+        out, any_ = [], False
+        for a in args:
+            if isinstance(a, np.ndarray) and a.ndim >= 2 and a.dtype.kind == "f" and a.shape[0] >= 2:
+                b = a.copy()
+                b[int(r2_.integers(b.shape[0]))] = np.nan
+                if b.shape[0] > 3:
+                    b[(int(r2_.integers(b.shape[0])),) + tuple(int(r2_.integers(n)) for n in b.shape[1:])] = np.nan
+                out.append(b)
+                any_ = True
+            else:
+                out.append(a.copy() if isinstance(a, np.ndarray) else a)
+        return out if any_ else None
     if form == "view":
         out = []
         for a in args:
@@ -489,12 +542,13 @@ def check(case, ctx):
     base_args = fac(A(rng))
     args = make_forms(base_args, case.p["form"], rng)
     if args is None:
-        ctx.note("no two parameters of equal shape: aliased form not applicable" if case.p["form"] == "aliased" else "no quaternion / rotation-matrix shaped argument: objects form not applicable")
+        ctx.note("no two parameters of equal shape: aliased form not applicable" if case.p["form"] == "aliased" else "no multi-row float array argument: nan-marked form not applicable" if case.p["form"] == "nan-marked" else "no quaternion / rotation-matrix shaped argument: objects form not applicable")
         return
     if case.p["form"] == "objects":
         pristine = [a.copy() if isinstance(a, np.ndarray) else a for a in base_args]
     else:
         pristine = [a.copy() if isinstance(a, np.ndarray) else a for a in args]
+    reform = "fresh" if case.p["form"] == "nan-marked" else case.p["form"]      # (pristine already carries the markers)
     before = snapshot(args)
 
     def run(a):
@@ -553,7 +607,7 @@ def check(case, ctx):
     undo = []
     scribbled = scribble(r1.value, args, undo)
     if scribbled:
-        r4 = call(run, make_forms(pristine, case.p["form"], rng))
+        r4 = call(run, make_forms(pristine, reform, rng))
         a4 = flat(r4.value).copy() if r4.ok else None
         for arr_, old_ in undo:        # put the buffers back: a shared one would otherwise poison every later case of this process
             arr_[...] = old_
@@ -561,7 +615,7 @@ def check(case, ctx):
             ctx.ok("a result overwritten by the caller does not change what the next call returns", a4.shape == saved.shape and np.array_equal(a4, saved, equal_nan=True),
                    {"overwritten_arrays": scribbled, "max_diff": float(np.nanmax(np.abs(a4 - saved))) if a4.shape == saved.shape and a4.size else None}, route=name)
     # pristine arguments in the same memory layout (a strided view and a contiguous copy may legitimately differ in the last bit)
-    r3 = call(run, make_forms(pristine, case.p["form"], rng))
+    r3 = call(run, make_forms(pristine, reform, rng))
     for lab, r in (("the same objects", r2), ("pristine copies of the arguments", r3)):
         if not r.ok:
             ctx.ok("second call with %s returns the same result" % lab, False, {"exc": "%s: %s" % (r.exc_name, str(r.exc)[:100])}, route=name)
